@@ -449,6 +449,15 @@ Corollary reads_only_values (s1 s2 : state) prog :
   run_from s1 prog = run_from s2 prog.
 Proof. intros E1 E2 E3. apply run_values_forward. repeat split; assumption. Qed.
 
+(* the same with the syntactic class [forward_only] of Model/Conc.v *)
+Corollary reads_only_shared (s1 s2 : state) prog :
+  map (@nval A) (st_heap s1) = map (@nval A) (st_heap s2) -> st_env s1 = st_env s2 -> st_rng s1 = st_rng s2 ->
+  forallb (@forward_only A) prog = true -> run_from s1 prog = run_from s2 prog.
+Proof.
+  intros E1 E2 E3 Hf. apply reads_only_values; try assumption.
+  rewrite forallb_forall in Hf |- *. intros c Hc. specialize (Hf c Hc). destruct c; try discriminate; reflexivity.
+Qed.
+
 (* ================================================================== *)
 (*  II.  the tracking rule in every state                               *)
 (* ================================================================== *)
@@ -1435,8 +1444,8 @@ Qed.
 End FlagsP.
 
 Module FlagsEx.
-Import TrackEx StepEx.
-#[local] Existing Instance Z_scalar.
+Import StepEx.   (* not TrackEx: it has its own [flags] *)
+#[local] Existing Instance TrackEx.Z_scalar.
 Local Open Scope Z_scope.
 
 (* same contexts, different values *)
@@ -1458,7 +1467,7 @@ Proof.
   assert (F : fssim sC sD) by (split; vm_compute; reflexivity).
   assert (O : map okObs (runZ sC prog) = map okObs (runZ sD prog)) by (vm_compute; reflexivity).
   split; [exact F|]. split; [vm_compute; discriminate|]. split; [exact O|]. split.
-  - apply (exec_flags RedSum idv idg 0 1 d0 d0 d0 d0 d0 d0 d0 0 sC sD prog F O).
+  - destruct (exec_flags RedSum idv idg 0 1 d0 d0 d0 d0 d0 d0 d0 0 sC sD prog F O) as [X _]. exact X.
   - vm_compute. reflexivity.
 Qed.
 End FlagsEx.
@@ -1468,6 +1477,7 @@ Print Assumptions exec_values.
 Print Assumptions run_values.
 Print Assumptions run_values_forward.
 Print Assumptions reads_only_values.
+Print Assumptions reads_only_shared.
 Print Assumptions step_track_rule.
 Print Assumptions step_spent_operand.
 Print Assumptions step_tracked_iff.
